@@ -112,7 +112,9 @@ def ref_events(stream: bytes, start_rx=0):
     ref = R.RefDecoder(start_rx)
     ev = ref.feed(stream)
     ups = [e for e in ev if e[0].startswith("up")]
-    txs = [e[:3] for e in ev if e[0] == "tx"]
+    # (kind, ackNum) of every answer; for a well-formed DATA frame that is not the next expected one the kind is
+    # left open by the properties (one ACK or NAK with the right number): marked "ACK-or-NAK"
+    txs = [("tx", "ACK-or-NAK", e[2]) if len(e) > 4 and e[4] == "open" else e[:3] for e in ev if e[0] == "tx"]
     return ups, txs, ref.stats
 
 
@@ -155,6 +157,11 @@ def escape_cut(stream: bytes, cuts) -> bool:
     return any(stream[c - 1] == R.ESC for c in cuts)
 
 
+def _same_answers(got, want):
+    return len(got) == len(want) and all(g == w or (w[1] == "ACK-or-NAK" and g[0] == "tx" and g[1] in ("ACK", "NAK") and g[2] == w[2])
+                                         for g, w in zip(got, want))
+
+
 def check_stream(acc: Acc, stream: bytes, allchunk: int, rnd, label):
     try:
         ups, txs, stats = ref_events(stream)
@@ -194,9 +201,12 @@ def check_stream(acc: Acc, stream: bytes, allchunk: int, rnd, label):
                 key = "C02/upward-events-differ"
             acc.violation(key, f"upward events {gups!r}, reference {ups!r}", case)
             return
+        if len(gtxs) == len(txs):
+            gtxs = [("tx", "ACK-or-NAK", g[2]) if w[1] == "ACK-or-NAK" and g[0] == "tx" and g[1] in ("ACK", "NAK") else g
+                    for g, w in zip(gtxs, txs)]
         if gtxs != txs:
             key = "C02/ack-nak-differ"
-            if cuts and real_events([stream])[1] == txs:
+            if cuts and _same_answers(real_events([stream])[1], txs):
                 key = "C02/ack-nak-depend-on-chunking"
             acc.violation(key, f"written back {gtxs!r}, reference {txs!r}", case)
             return
